@@ -477,6 +477,45 @@ def opsOf : List Act → List Op
 /-- a freshly opened durable store (`open_durable` on an empty directory) -/
 def Sys.fresh (mode : SyncMode) : Sys := ⟨mode, Wal.openOn [], Store.empty, none⟩
 
+/-! ### the step boundaries of `TensorWal::rotate` -/
+
+/-- the files of the log: the live file at the log path (`none`: no such file) and the rotated
+    segments `<name>.n` (absent from the list: no such file) -/
+structure LogDir where
+  live : Option Bytes
+  segs : List (Nat × Bytes)
+  deriving DecidableEq, Repr
+
+/-- `if from.exists() { rename(from, to) }` on two segment names -/
+def LogDir.renameSeg (d : LogDir) (a b : Nat) : LogDir :=
+  match aget d.segs a with
+  | some c => { d with segs := aset (aerase d.segs a) b c }
+  | none => d
+
+/-- `for i in (1..max_rotated_files).rev() { rename .i -> .(i+1) }`: the directory after each rename,
+    called with `i = max_rotated_files - 1` -/
+def LogDir.shift : LogDir → Nat → List LogDir
+  | _, 0 => []
+  | d, i + 1 => (d.renameSeg (i + 1) (i + 2)) :: LogDir.shift (d.renameSeg (i + 1) (i + 2)) i
+
+/-- `if self.path.exists() { rename(path, <name>.1) }` -/
+def LogDir.retire (d : LogDir) : LogDir :=
+  match d.live with
+  | some c => { live := none, segs := aset d.segs 1 c }
+  | none => d
+
+/-- the directory after each file-system call of `rotate` (the live file has been flushed and
+    fsynced first): oldest segment removed; segments shifted one by one; live file renamed to
+    `.1`; fresh empty live file created -/
+def LogDir.rotateSteps (m : Nat) (d : LogDir) : List LogDir :=
+  let d0 : LogDir := { d with segs := aerase d.segs m }
+  let sh := LogDir.shift d0 (m - 1)
+  let d2 := (sh.getLast?.getD d0).retire
+  [d0] ++ sh ++ [d2, { d2 with live := some [] }]
+
+/-- what recovery reads: only the file at the log path (`TensorWal::open` creates it when missing) -/
+def LogDir.recoverFile (d : LogDir) : Bytes := d.live.getD []
+
 /-! ### appends that fail (`SizeLimitExceeded` with `auto_rotate = false`, I/O errors) -/
 
 /-- `write_entry_no_sync` with `auto_rotate = false`: a record that would take the file beyond
